@@ -229,6 +229,11 @@ func (r *rpcRun) before(dir string, idx int) proto.Message {
 		if idx == 0 {
 			return emptyOf(r.shape)
 		}
+		r.mu.Lock()
+		defer r.mu.Unlock()
+		if got := r.recvd[dirIdx(dir)]; idx-1 < len(got) && got[idx-1] != nil {
+			return got[idx-1] // (a snapshot) what the previous receive left in the object
+		}
 		return r.want(dir, idx-1)
 	}
 	return junk(r.shape.Type)
